@@ -1,5 +1,10 @@
 package document
 
+import (
+	"bytes"
+	"io"
+)
+
 // C11: each header/footer kind has exactly one, current, resolvable definition.
 
 const zzhRelHeader = "http://schemas.openxmlformats.org/officeDocument/2006/relationships/header"
@@ -17,7 +22,7 @@ type zzhHFCall struct {
 }
 
 // zzhHFCallAny performs one solver-chosen header/footer call and describes it.
-func zzhHFCallAny(d *Document) zzhHFCall {
+func zzhHFCallAny(d *Document, shared *TextFormat) zzhHFCall {
 	c := zzhHFCall{kind: zzhKinds[zzvChoice(3)], text: zzvString()}
 	var err error
 	switch zzvChoice(6) {
@@ -33,13 +38,15 @@ func zzhHFCallAny(d *Document) zzhHFCall {
 		c.footer, c.pageNum = true, zzvBool()
 		err = d.AddFooterWithPageNumber(c.kind, c.text, c.pageNum)
 	case 4:
-		c.formatted, c.bold = true, zzvBool()
-		err = d.AddFormattedHeader(c.kind, &HeaderFooterConfig{Text: c.text, Format: &TextFormat{Bold: c.bold, FontSize: 11}, Alignment: AlignCenter})
+		// the caller's format object is reused for every formatted call of the run
+		c.formatted, c.bold = true, shared.Bold
+		err = d.AddFormattedHeader(c.kind, &HeaderFooterConfig{Text: c.text, Format: shared, Alignment: AlignCenter})
 	case 5:
-		c.footer, c.formatted, c.bold = true, true, zzvBool()
-		err = d.AddFormattedFooter(c.kind, &HeaderFooterConfig{Text: c.text, Format: &TextFormat{Bold: c.bold, FontSize: 11}, Alignment: AlignCenter})
+		c.footer, c.formatted, c.bold = true, true, shared.Bold
+		err = d.AddFormattedFooter(c.kind, &HeaderFooterConfig{Text: c.text, Format: shared, Alignment: AlignCenter})
 	}
 	zzvAssert(err == nil, "header/footer call succeeds")
+	zzvAssert(shared.FontSize == 11 && shared.FontColor == "336699" && shared.FontFamily == "Arial", "a header/footer call leaves the caller's format object as it was")
 	return c
 }
 
@@ -120,6 +127,7 @@ func zzhCheckContent(d *Document, parts map[string]string, c zzhHFCall) {
 	if c.formatted {
 		zzvAssert(zzhHas(flat, "<jc val=center"), "the part carries the alignment of the most recent call")
 		zzvAssert(zzvOr(c.text == "", (zzhCount(flat, "<b") == 1) == c.bold), "the part carries the bold setting of the most recent call")
+		zzvAssert(zzvOr(c.text == "", zzvAnd(zzhHas(flat, "<sz val=22"), zzhHas(flat, "<color val=336699"))), "the part carries the font size and colour of the most recent call")
 	} else {
 		zzvAssert(zzhCount(flat, "<b") == 0, "no formatting unless the most recent call asked for it")
 	}
@@ -133,13 +141,14 @@ func ZZH_C11_Calls() {
 	d := New()
 	k := zzvBound("hf_calls", 2, 3)
 	last := map[string]zzhHFCall{}
+	shared := &TextFormat{Bold: zzvBool(), FontSize: 11, FontColor: "336699", FontFamily: "Arial"}
 	for i := 0; i < k; i++ {
 		if i == 1 && zzvBool() {
 			// interleaved page-setting / first-page calls must not disturb the references
 			d.SetDifferentFirstPage(zzvBool())
 			zzvAssume(d.SetPageMargins(20, 20, 20, 20) == nil)
 		}
-		c := zzhHFCallAny(d)
+		c := zzhHFCallAny(d, shared)
 		last[zzhHFKey(c)] = c
 		parts := zzhCheckRefs(d)
 		zzhCheckContent(d, parts, c)
@@ -228,6 +237,20 @@ func ZZH_C11_RefsAfterRedefinition() {
 			}
 		}
 		zzvAssert(found, "every footer definition is written to the saved section settings")
+	}
+	// the definitions survive reopening: the reopened document references the same kinds through
+	// the same relationship ids, one per kind, each resolving to its part
+	d2, err := OpenFromMemory(io.NopCloser(bytes.NewReader(data)))
+	zzvAssert(err == nil && d2 != nil, "the saved package opens")
+	if d2 != nil {
+		ra, rb := zzhSectionRefs(d), zzhSectionRefs(d2)
+		zzvAssert(len(ra) == len(rb), "every header/footer definition survives reopening")
+		if len(ra) == len(rb) {
+			for i := range ra {
+				zzvAssert(ra[i] == rb[i], "every header/footer definition survives reopening")
+			}
+		}
+		zzhCheckRefs(d2)
 	}
 	// relationship ids stay unique in the document relationship list
 	rels := d.documentRelationships.Relationships
